@@ -146,6 +146,19 @@ func runC05(ctx *h.Ctx) int {
 		}
 		g := spec.NewGen(k.R, p)
 		prog := g.FullProgram(1 + k.R.IntN(4))
+		if k.R.IntN(5) == 0 {
+			// a command argument that merely ENDS like a sub-label of its script (call(Npc_<script>_3)): not a reference to it
+			blocks := collectBlocks(prog)
+			for n := 0; n < 3 && len(blocks) > 0; n++ {
+				bc := blocks[k.R.IntN(len(blocks))]
+				if bc.single || bc.inPory {
+					continue
+				}
+				c := &spec.Cmd{ID: prog.NewID(), Name: g.Name("cmd"), Args: []*spec.Arg{{Toks: []string{"1"}}, {Toks: []string{fmt.Sprintf("Npc_%s_%d", bc.script, 1+k.R.IntN(7))}}}}
+				insertStmt(bc.b, k.R.IntN(safeLen(bc.b)+1), &spec.CmdStmt{Cmd: c})
+			}
+			k.Count("files_with_arguments_ending_like_sublabels", 1)
+		}
 		pr := layoutOf(k, prog, 0.15)
 		k.SetSource(pr.Src)
 		kk, probe := k.Dry()
